@@ -303,10 +303,64 @@ fn reference(a: &Args) {
     print!("{}", s);
 }
 
+/// `worker --mode 3` (added after the mutation campaign, M29: a racy per-type cache is hit only by the first two
+/// constructions of ONE type in a process): a cold process whose `threads` threads ALL make their very first call
+/// into the SAME algorithm `first`, and nothing else. The threads meet at the std barrier (so that all of them exist
+/// and have their inputs ready) and then at a spinning rendezvous (a condvar barrier wakes its waiters one after the
+/// other; the spin lets them leave within a few cycles of each other). Each thread calls the algorithm twice: the
+/// racing first call and one more (a half-initialised shared value that stays behind shows there as well).
+fn worker_same(a: &Args) {
+    use std::sync::atomic::{AtomicUsize, Ordering};
+    let seed = a.u64("seed", 1);
+    let threads = a.u64("threads", 2) as usize;
+    set_level(a.u64("level", 0) as u8);
+    let n = algs().len();
+    let first = a.u64("first", 0) as usize % n;
+    let bar = Arc::new(Barrier::new(threads));
+    let arrived = Arc::new(AtomicUsize::new(0));
+    let mut hs = Vec::new();
+    for t in 0..threads {
+        let (bar, arrived) = (bar.clone(), arrived.clone());
+        hs.push(std::thread::spawn(move || {
+            let al = algs();
+            let f = al[first].f;
+            let input = msg(al[first].fam, t % VARIANTS, seed);
+            bar.wait();
+            arrived.fetch_add(1, Ordering::AcqRel);
+            let mut spins = 0u32;
+            while arrived.load(Ordering::Acquire) < threads {
+                spins += 1;
+                if spins > 20_000 {
+                    std::thread::yield_now(); // more threads than CPUs: let the late ones run
+                } else {
+                    std::hint::spin_loop();
+                }
+            }
+            let r1 = f(&input);
+            let r2 = f(&input);
+            (r1, r2)
+        }));
+    }
+    let mut s = String::new();
+    for (t, h) in hs.into_iter().enumerate() {
+        match h.join() {
+            Ok((r1, r2)) => {
+                s.push_str(&format!("C {} {} {}\n", t, first, fp(&r1)));
+                s.push_str(&format!("C {} {} {}\n", t, first, fp(&r2)));
+            }
+            Err(_) => s.push_str(&format!("P {} panic\n", t)),
+        }
+    }
+    print!("{}", s);
+}
+
 fn worker(a: &Args) {
     let seed = a.u64("seed", 1);
     let threads = a.u64("threads", 2) as usize;
     let mode = a.u64("mode", 0) as usize;
+    if mode == 3 {
+        return worker_same(a);
+    }
     let first = a.u64("first", 0) as usize;
     let hammer = a.u64("hammer", 0) as usize;
     set_level(a.u64("level", 0) as u8);
@@ -827,6 +881,83 @@ fn conc(a: &Args) {
         }
     }
 
+    // (2b) cold processes whose k threads all start on the SAME algorithm (worker mode 3); the algorithm rotates over
+    // all of them across the processes (offset by the seed), k over {2, 8, 64}; every one of the 2k results is compared
+    // with the reference
+    let same_procs = a.u64("samestart", (3 * n) as u64) as usize;
+    let ks = [2usize, 8, 64];
+    let mut same_thread_hist: BTreeMap<usize, usize> = BTreeMap::new();
+    let mut same_first: HashSet<(usize, usize)> = HashSet::new();
+    let mut same_compared = 0usize;
+    let same_plan: Vec<(usize, usize)> = (0..same_procs).map(|p| (ks[p % 3], (p / 3 + p / (3 * n) * 7 + seed as usize) % n)).collect();
+    for batch in same_plan.chunks(par.max(1)) {
+        let hs: Vec<_> = batch
+            .iter()
+            .map(|&(t, first)| {
+                let args = sv(&["worker", "--seed", &seed_s, "--threads", &t.to_string(), "--mode", "3", "--first", &first.to_string(), "--level", &level_s]);
+                std::thread::spawn(move || spawn_self(&args))
+            })
+            .collect();
+        for (h, &(t, first)) in hs.into_iter().zip(batch.iter()) {
+            *same_thread_hist.entry(t).or_insert(0) += 1;
+            same_first.insert((t, first));
+            configs.insert((t, 3, first));
+            let desc = format!(
+                "\"threads\":{},\"mode\":\"3 (all threads start on the same algorithm and run nothing else)\",\"first_algorithm\":{},\"seed\":{},\"level\":{}",
+                t, jstr(al[first].name), seed, level
+            );
+            match h.join().unwrap() {
+                Err(e) => {
+                    nfail += 1;
+                    if direct.len() < 10 {
+                        direct.push(format!("{{{},\"outcome\":{}}}", desc, jstr(&e)));
+                    }
+                }
+                Ok(out) => {
+                    let mut seen = 0usize;
+                    let mut call_of_thread: BTreeMap<usize, usize> = BTreeMap::new();
+                    for l in out.lines() {
+                        let p: Vec<&str> = l.split(' ').collect();
+                        if p[0] == "P" {
+                            nfail += 1;
+                            if direct.len() < 10 {
+                                direct.push(format!("{{{},\"thread\":{},\"outcome\":\"panic\"}}", desc, p[1]));
+                            }
+                            continue;
+                        }
+                        let (th, j): (usize, usize) = (p[1].parse().unwrap(), p[2].parse().unwrap());
+                        let call = call_of_thread.entry(th).or_insert(0);
+                        *call += 1;
+                        seen += 1;
+                        same_compared += 1;
+                        let want = &refs[&('C', j, th % VARIANTS)];
+                        if j != first || want != p[3] {
+                            nfail += 1;
+                            if direct.len() < 10 {
+                                direct.push(format!(
+                                    "{{{},\"thread\":{},\"phase\":{},\"algorithm\":{},\"input_variant\":{},\"got\":{},\"sequential\":{}}}",
+                                    desc, th,
+                                    jstr(if *call == 1 { "first call of every thread, released together" } else { "second call of the thread" }),
+                                    jstr(al[j].name), th % VARIANTS, jstr(p[3]), jstr(want)
+                                ));
+                            }
+                        }
+                    }
+                    if seen != 2 * t {
+                        nfail += 1;
+                        if direct.len() < 10 {
+                            direct.push(format!("{{{},\"outcome\":\"{} of {} results reported\"}}", desc, seen, 2 * t));
+                        }
+                    }
+                }
+            }
+        }
+    }
+    let same_algs_per_k: Vec<String> = ks
+        .iter()
+        .map(|&k| format!("\"{}\":{}", k, same_first.iter().filter(|x| x.0 == k).count()))
+        .collect();
+
     // (3) interleavings in one thread
     let rr = spawn_self(&sv(&["ref-rounds", "--seed", &seed_s, "--level", &level_s, "--rounds", &rounds.to_string()]));
     let mut ref_round: BTreeMap<(usize, usize), String> = BTreeMap::new();
@@ -916,8 +1047,8 @@ fn conc(a: &Args) {
     }
     let hist = |m: &BTreeMap<usize, usize>| format!("{{{}}}", m.iter().map(|(k, v)| format!("\"{}\":{}", k, v)).collect::<Vec<_>>().join(","));
     println!(
-        "{{\"evaluations\":{},\"distinct_nontrivial\":{},\"direct_failures\":[{}],\"failing_results\":{},\"samples\":[{}],\"cold_processes\":{},\"thread_counts\":{},\"start_modes\":{},\"first_algorithm\":{{{}}},\"thread_results_compared\":{},\"hammer_results_compared\":{},\"hammer_iterations_per_process\":{},\"algorithms\":[{}],\"hammer_algorithms\":[{}],\"stream_types_share_key_and_nonce\":true,\"reference\":\"each algorithm in a single-threaded process of its own ({} processes); two whole-sequence single-threaded processes (forwards, backwards) compared with it: {} results\",\"sequence_results_compared\":{},\"interleaving_rounds\":{},\"interleaving_instances\":{},\"interleaving_ops\":{},\"interleaving_op_mix\":{{{}}},\"interleaving_rounds_with_two_instances_of_one_type\":{},\"interleaving_rounds_from_one_family\":{},\"interleaving_rounds_same_key_nonce_under_two_stream_types\":{},\"interleaving_rounds_other_key_same_nonce\":{},\"interleaving_rounds_two_output_sizes_of_one_skein_state_size\":{},\"interleaving_reference\":\"same process one at a time + separate process, rounds and instances in reverse order, unrelated stream traffic in between\",\"backend_level\":{},\"profile\":{}}}",
-        compared + hammer_compared + seq_compared + rounds,
+        "{{\"evaluations\":{},\"distinct_nontrivial\":{},\"direct_failures\":[{}],\"failing_results\":{},\"samples\":[{}],\"cold_processes\":{},\"thread_counts\":{},\"start_modes\":{},\"first_algorithm\":{{{}}},\"thread_results_compared\":{},\"hammer_results_compared\":{},\"hammer_iterations_per_process\":{},\"same_start_processes\":{},\"same_start_thread_counts\":{},\"same_start_distinct_first_algorithms_per_thread_count\":{{{}}},\"same_start_results_compared\":{},\"algorithms\":[{}],\"hammer_algorithms\":[{}],\"stream_types_share_key_and_nonce\":true,\"reference\":\"each algorithm in a single-threaded process of its own ({} processes); two whole-sequence single-threaded processes (forwards, backwards) compared with it: {} results\",\"sequence_results_compared\":{},\"interleaving_rounds\":{},\"interleaving_instances\":{},\"interleaving_ops\":{},\"interleaving_op_mix\":{{{}}},\"interleaving_rounds_with_two_instances_of_one_type\":{},\"interleaving_rounds_from_one_family\":{},\"interleaving_rounds_same_key_nonce_under_two_stream_types\":{},\"interleaving_rounds_other_key_same_nonce\":{},\"interleaving_rounds_two_output_sizes_of_one_skein_state_size\":{},\"interleaving_reference\":\"same process one at a time + separate process, rounds and instances in reverse order, unrelated stream traffic in between\",\"backend_level\":{},\"profile\":{}}}",
+        compared + hammer_compared + same_compared + seq_compared + rounds,
         configs.len() + distinct_rounds.len(),
         direct.join(","),
         nfail,
@@ -929,6 +1060,10 @@ fn conc(a: &Args) {
         compared,
         hammer_compared,
         hammer,
+        same_procs,
+        hist(&same_thread_hist),
+        same_algs_per_k.join(","),
+        same_compared,
         al.iter().map(|x| jstr(x.name)).collect::<Vec<_>>().join(","),
         ha.iter().map(|x| jstr(x.name)).collect::<Vec<_>>().join(","),
         n + ha.len(),
